@@ -327,6 +327,20 @@ fn stage_main(beh: &str) -> ! {
     }
 }
 
+/// write the descriptors this process was started with that are pipes: "fd:ino fd:ino ..."
+fn fdlist_main(path: &str) {
+    let mut v = vec![];
+    for fd in 0..256 {
+        unsafe {
+            let mut st: libc::stat = std::mem::zeroed();
+            if libc::fstat(fd, &mut st) == 0 && (st.st_mode & libc::S_IFMT) == libc::S_IFIFO {
+                v.push(format!("{}:{}", fd, st.st_ino));
+            }
+        }
+    }
+    let _ = std::fs::write(path, v.join(" "));
+}
+
 fn main() {
     let a0 = std::env::args().next().unwrap_or_default();
     if !a0.ends_with("hplain") {
@@ -338,6 +352,7 @@ fn main() {
         "sh" => engine_sh(),
         "shreal" => engine_shreal(),
         "stage" => stage_main(&std::env::args().nth(2).unwrap_or_default()),
+        "fdlist" => fdlist_main(&std::env::args().nth(2).unwrap_or_default()),
         _ => {
             eprintln!("usage: hplain sh|shreal");
             std::process::exit(2);
